@@ -7,7 +7,7 @@ silently become something else.  The model functions were written against exactl
 import WowSrp.Gen.Facts
 namespace WowSrp
 
-def expected_shapeMatrixCard : List (List String) := [["get_matrix_card_seed: calls=rand::random; control=; ops=", "verify_matrix_card_hash: calls=MatrixCardVerifier::new,height,width,let,get_matrix_coordinates,unwrap,get_number_at_coordinates,enter_value,into_proof; control=for,for; ops===", "new: calls=Self::get_matrix_card_size,fill_matrix_card_values; control=; ops=", "get_number_at_coordinates: calls=; control=; ops=", "get_matrix_card_size: calls=into,into,into; control=; ops=", "data: calls=; control=; ops=", "from_data: calls=Self::get_matrix_card_size,len; control=if,return; ops=!=", "to_printer: calls=chunks,into; control=; ops=", "width: calls=; control=; ops=", "height: calls=; control=; ops=", "digit_count: calls=; control=; ops=", "next: calls=next,String::with_capacity,to_string; control=if,for,else; ops=", "fill_matrix_card_values: calls=thread_rng,Uniform::from,sample; control=for; ops=", "new: calls=generate_coordinates,Context::new,consume,to_le_bytes,consume,compute,Rc4::new,new_from_slice,unwrap; control=; ops=", "get_matrix_coordinates: calls=; control=if,return,if,return,return; ops=>=,>=", "enter_value: calls=apply_keystream,as_mut_slice,update; control=; ops=", "into_proof: calls=finalize_fixed,into; control=; ops=", "generate_coordinates: calls=into,into; control=for,for,for; ops=", "real_3_3_5_client: calls=MatrixCardVerifier::new,enter_value,enter_value,get_matrix_coordinates,into_proof; control=; ops=", "real_3_3_5_client_multiple_challenges: calls=MatrixCardVerifier::new,enter_value,enter_value,enter_value,enter_value,enter_value,enter_value,get_matrix_coordinates,get_matrix_coordinates,get_matrix_coordinates,into_proof; control=; ops="]]
+def expected_shapeMatrixCard : List (List String) := [["get_matrix_card_seed: calls=rand::random; control=; ops=", "verify_matrix_card_hash: calls=MatrixCardVerifier::new,height,width,let,get_matrix_coordinates,unwrap,get_number_at_coordinates,enter_value,into_proof; control=for,for; ops===", "new: calls=vec!,Self::get_matrix_card_size,fill_matrix_card_values; control=; ops=", "get_number_at_coordinates: calls=; control=; ops=", "get_matrix_card_size: calls=into,into,into; control=; ops=", "data: calls=; control=; ops=", "from_data: calls=Self::get_matrix_card_size,len; control=if,return; ops=!=", "to_printer: calls=chunks,into; control=; ops=", "width: calls=; control=; ops=", "height: calls=; control=; ops=", "digit_count: calls=; control=; ops=", "next: calls=next,String::with_capacity,to_string; control=if,for,else; ops=", "fill_matrix_card_values: calls=thread_rng,Uniform::from,sample; control=for; ops=", "new: calls=generate_coordinates,Context::new,consume,to_le_bytes,consume,compute,Rc4::new,new_from_slice,unwrap; control=; ops=", "get_matrix_coordinates: calls=; control=if,return,if,return,return; ops=>=,>=", "enter_value: calls=apply_keystream,as_mut_slice,update; control=; ops=", "into_proof: calls=finalize_fixed,into; control=; ops=", "generate_coordinates: calls=vec!,into,vec!,into; control=for,for,for; ops=", "real_3_3_5_client: calls=MatrixCardVerifier::new,enter_value,enter_value,assert_eq!,get_matrix_coordinates,into_proof,assert_eq!; control=; ops=", "real_3_3_5_client_multiple_challenges: calls=MatrixCardVerifier::new,enter_value,enter_value,enter_value,enter_value,enter_value,enter_value,assert_eq!,get_matrix_coordinates,assert_eq!,get_matrix_coordinates,assert_eq!,get_matrix_coordinates,into_proof,assert_eq!; control=; ops="]]
 
 theorem shapeMatrixCard_ok : Gen.shapeMatrixCard = expected_shapeMatrixCard := by decide +kernel
 
